@@ -2,9 +2,11 @@ package main
 
 import (
 	"fmt"
+	"os"
 	"sort"
 	"strings"
 	"sync"
+	"time"
 )
 
 // ---------------------------------------------------------------------------------------------
@@ -70,6 +72,46 @@ func tkQuotePool() []string {
 		out = append(out, a("QQQxQ)+(QyQQQ"), a("a,QQ\r\nQQ,QQ"), a("1,2\r\n3,QQ"), a("QQQaQ,QbQQQ\nQQQQ,QQ"), a("x {{ f QQ"), a("{{#a QQ}}QQ{{/a}}QQ"), a("{{QQQaQ}}"), a("QQ QQ"), a("QQ+QQ"))
 	}
 	return out
+}
+
+// tkFormatPool: format, zero-width and non-character code points (byte-order mark / zero width no-break
+// space, zero width space, no-break space, word joiner, soft hyphen, left-to-right mark, U+FFFE) are input
+// characters like any other ("every input character belongs to exactly one token"): as the first
+// character, inside, as the last character, alone, doubled, and next to every token class of each tokenizer.
+func tkFormatPool() []string {
+	var out []string
+	for _, z := range []string{"\ufeff", "\u200b", "\u00a0", "\u2060", "\ufffe", "\u00ad", "\u200e"} {
+		for _, t := range []string{"Z", "ZZ", "Za", "aZ", "aZb", "Z1", "1Z", "1Z2", "Z Z", " Z", "Z ", "Z\n", "\nZ", "a\nZb", "Z'x'", "'Z'", "'xZ", "Z\"a\",b", "Z,a", "a,Z", "a,Z,b\nZ",
+			"Z{{a}}", "{{Z}}", "{{a}}Z", "x{{aZ}}y", "Z/* c */", "/*Z*/", "/*Z", "//Z\nZ", "Z# c", "a + Z", "Z<=Z", "<Z=", "Z.5", "1.Z5", "-Z1"} {
+			out = append(out, strings.ReplaceAll(t, "Z", z))
+		}
+	}
+	return out
+}
+
+// tkUnclosedPool: an opener of a comment, a literal or a tag that is never closed, followed by characters
+// that take two, three and four bytes in UTF-8, after some leading tokens (a put-back that counts bytes,
+// UTF-16 units or anything but characters rewinds to the wrong place exactly here).
+func tkUnclosedPool() []string {
+	var out []string
+	for _, lead := range []string{"", "a", "1 + 2 ", "é ", "x,", "😀"} {
+		for _, open := range []string{"/*", "//", "#", "'", "\"", "/", "{{", "{{!", "{{ '", "{{a}}{{/*"} {
+			for _, tail := range []string{"é", " café", "ж", "日本", "😀", "x😀é", "é*", "日/", "é\nж", " c 日 *", "ÿĀ€😀"} {
+				out = append(out, lead+open+tail)
+			}
+		}
+	}
+	return out
+}
+
+// tkBudget tells a run that used up its step budget from the other undecided runs: the statements require
+// every input to be tokenized into a finite stream, and the budget is some hundred times what the longest
+// input of the families needs, so such a run is reported as a tokenization that does not end.
+func tkBudget(h *tkHarness, show, why string, maxOK int) string {
+	if !strings.Contains(why, "step budget") {
+		return ""
+	}
+	return fmt.Sprintf("%s does not end: the abstract run used up its budget of %d steps (%s; the longest run that ended, among those evaluated before on this instance, took %d steps) - every input must be tokenized into a finite stream whose values concatenate to the input, no character invented or read twice [last functions entered: %s]", show, h.m.maxSteps, why, maxOK, h.lastPath)
 }
 
 type tkSpan struct {
@@ -504,13 +546,184 @@ func (c *Ctx) tkRunHistory(kind string, hist tkHistory, v *tkVerdict) {
 			}
 			switch r.kind {
 			case "opaque":
-				v.note("lossless", "", show+": "+r.why)
+				v.note("lossless", tkBudget(h, show, r.why, h.maxOK), show+": "+r.why)
 			case "panic":
 				v.note("lossless", show+" panics: "+r.why, "")
 			default:
 				tkCheckBase(label, s, r.toks, v, h.lastPath)
 			}
 		}
+	}
+}
+
+// tkRejectingConfigs: configurations, made through the exported API only, in which the character map routes a
+// character to a state that does not accept it (a whitespace or word state narrowed after the map was set up,
+// a punctuation character handed to the word or whitespace state) or in which a state hands out tokens of the
+// Unknown type itself (a symbol registered with that type). "With skip-unknown on there are no Unknown tokens"
+// holds for these as for unmapped characters; every other option leaves such tokens untouched.
+func tkRejectingConfigs(c *Ctx) []tkStage {
+	unknown, _ := c.constByName("tokenizers", "Unknown")
+	mix := func(chars ...string) []string {
+		in := tkOver(append(chars, "a", " "), 2)
+		z, y := chars[0], chars[len(chars)-1]
+		return append(in, "ab"+z+"cd", "x = 1 "+z+y+" + 'q'"+z, "😀a"+y+"b😀", z+z+z, "a "+z+" /* c */ "+y+"\n"+z+"b", "12"+z+"3.5 "+y, "'"+z+"'"+y, "{{a"+z+"}}"+y+"{{ "+z+" }}", "a,"+z+",\""+y+"\"\n"+z)
+	}
+	return []tkStage{
+		{"WhitespaceState().SetWhitespaceChars(0x01, 0x08, false)", func(h *tkHarness) string {
+			return h.stateCall("WhitespaceState", "SetWhitespaceChars", int64(1), int64(8), false)
+		}, mix("\x01", "\x08", "\t")},
+		{"WhitespaceState().SetWhitespaceChars(' ', ' ', false)", func(h *tkHarness) string {
+			return h.stateCall("WhitespaceState", "SetWhitespaceChars", int64(' '), int64(' '), false)
+		}, mix("\t", "\n")},
+		{"SetCharacterState('$', '$', WordState())", func(h *tkHarness) string { return h.setCharState('$', '$', "WordState") }, mix("$")},
+		{"SetCharacterState('@', '~', WhitespaceState())", func(h *tkHarness) string { return h.setCharState('@', '~', "WhitespaceState") }, mix("@", "x", "~")},
+		{"WordState().ClearWordChars(), WordState().SetWordChars('a', 'f', true)", func(h *tkHarness) string {
+			if why := h.stateCall("WordState", "ClearWordChars"); why != "" {
+				return why
+			}
+			return h.stateCall("WordState", "SetWordChars", int64('a'), int64('f'), true)
+		}, mix("z", "Q", "é")},
+		{"SymbolState().Add(\"<=\", Unknown), SymbolState().Add(\"%\", Unknown)", func(h *tkHarness) string {
+			if why := h.stateCall("SymbolState", "Add", "<=", unknown); why != "" {
+				return why
+			}
+			return h.stateCall("SymbolState", "Add", "%", unknown)
+		}, mix("<", "=", "%")},
+	}
+}
+
+// tkRunConfiguredOptions: on a freshly configured instance every option combination of the tier gives the
+// option-free stream of that same instance with whole tokens dropped or rewritten (statement of C15).
+func (c *Ctx) tkRunConfiguredOptions(kind string, cfg tkStage, masks []int, v *tkVerdict) {
+	h := c.newTkHarness(kind)
+	if h.fault != "" {
+		v.note("options", "", h.fault)
+		return
+	}
+	if why := h.setOptions(0); why != "" {
+		v.note("options", "", why)
+		return
+	}
+	if why := cfg.apply(h); why != "" {
+		switch {
+		case strings.Contains(why, " has no ") || strings.Contains(why, "not found"):
+			// this tokenizer does not offer the state or the setter: nothing to configure
+		case strings.Contains(why, " panic "):
+			v.note("options", fmt.Sprintf("%s tokenizer: %s - a valid configuration is refused", kind, why), "")
+		default:
+			v.note("options", "", kind+" tokenizer: "+why)
+		}
+		return
+	}
+	label := fmt.Sprintf("%s tokenizer (configured by %s)", kind, cfg.desc)
+	for i, s := range cfg.inputs {
+		show := fmt.Sprintf("%s on %q", label, s)
+		if i%17 == 0 {
+			noteSample("TOK.options/"+kind+"-configured", show)
+		}
+		if why := h.setOptions(0); why != "" {
+			v.note("options", "", why)
+			return
+		}
+		r := h.tokenize(s)
+		switch r.kind {
+		case "opaque":
+			v.note("options", tkBudget(h, show, r.why, h.maxOK), show+": "+r.why)
+			continue
+		case "panic":
+			v.note("options", show+" panics: "+r.why, "")
+			continue
+		}
+		from, dec, why := h.quoteInfo(kind, r.toks)
+		if why != "" {
+			v.note("options", "", show+": "+why)
+			continue
+		}
+		for _, mask := range masks {
+			if why := h.setOptions(mask); why != "" {
+				v.note("options", "", why)
+				break
+			}
+			got := h.tokenize(s)
+			want := tkExpect(r.toks, from, dec, 0, mask)
+			switch {
+			case got.kind == "opaque":
+				v.note("options", "", show+" with "+optNames(mask)+": "+got.why)
+			case got.kind == "panic":
+				v.note("options", show+" with "+optNames(mask)+" panics: "+got.why, "")
+			case renderToks(got.toks) != renderToks(want) && renderToks(got.toks) != renderToks(tkExpect(r.toks, from, dec, 1, mask)):
+				v.note("options", fmt.Sprintf("%s with %s gives [%s]; the option-free stream [%s] with whole tokens dropped or rewritten, at their own positions, is [%s]", show, optNames(mask), renderToks(got.toks), renderToks(r.toks), renderToks(want)), "")
+			default:
+				v.note("options", "", "")
+			}
+		}
+	}
+}
+
+// tkRunLongLine: "every input": a single line of more than 2^16 characters (a run of blanks, of word characters,
+// of digits, then a short token): every token still sits at the forward-scan column of its first character
+// and the end-of-input token one column past the last character. The inputs are described, not printed.
+func (c *Ctx) tkRunLongLine(kind string, v *tkVerdict) {
+	const n = 65540
+	for li, lm := range []struct{ unit, what, tail string }{{" ", "blanks", "x"}, {"a", "letters 'a'", " b 1"}, {"ab, ", "times \"ab, \"", "'q'"}} {
+		if c.Tier != "thorough" && li != 0 {
+			continue
+		}
+		h := c.newTkHarness(kind)
+		if h.fault != "" {
+			v.note("position", "", h.fault)
+			return
+		}
+		h.m.maxSteps = 400000000
+		if why := h.setOptions(0); why != "" {
+			v.note("position", "", why)
+			return
+		}
+		reps := n / len(lm.unit)
+		s := strings.Repeat(lm.unit, reps) + lm.tail
+		show := fmt.Sprintf("%s tokenizer on one line made of %d %s followed by %q", kind, reps, lm.what, lm.tail)
+		noteSample("TOK.position/"+kind, show)
+		t0 := time.Now()
+		r := h.tokenize(s)
+		if os.Getenv("MACHDEBUG") != "" {
+			fmt.Fprintf(os.Stderr, "%s: %d steps, %v\n", show, h.m.steps, time.Since(t0))
+		}
+		switch r.kind {
+		case "opaque":
+			v.note("position", tkBudget(h, show, r.why, h.maxOK), show+": "+r.why)
+			continue
+		case "panic":
+			v.note("position", show+" panics: "+r.why, "")
+			continue
+		}
+		lines, cols := refPositions(s)
+		off, bad := 0, ""
+		short := func(t string) string {
+			if rs := []rune(t); len(rs) > 24 {
+				return fmt.Sprintf("%q… (%d characters)", string(rs[:12]), len(rs))
+			}
+			return fmt.Sprintf("%q", t)
+		}
+		for i, t := range r.toks {
+			if off >= len(lines) {
+				bad = fmt.Sprintf("%s: the token values are longer than the input", show)
+				break
+			}
+			if !strings.HasPrefix(s[off:], t.val) {
+				// (one-byte characters only: offsets in bytes and in characters agree)
+				bad = fmt.Sprintf("%s: token %d %s(%s) is not the text at offset %d of the input: a character is dropped, invented or replaced", show, i, t.typ, short(t.val), off)
+				break
+			}
+			if t.line != lines[off] || t.col != cols[off] {
+				bad = fmt.Sprintf("%s: token %d %s(%s) reports %d:%d, its first character is at %d:%d in a forward scan [last functions entered: %s]", show, i, t.typ, short(t.val), t.line, t.col, lines[off], cols[off], h.lastPath)
+				break
+			}
+			off += len(t.val)
+		}
+		if bad == "" && (off != len(s) || len(r.toks) == 0 || r.toks[len(r.toks)-1].typ != "Eof") {
+			bad = fmt.Sprintf("%s: the %d tokens cover %d of the %d characters or do not end with the end-of-input token", show, len(r.toks), off, len(s))
+		}
+		v.note("position", bad, "")
 	}
 }
 
@@ -556,6 +769,10 @@ func (c *Ctx) tkRun(kind, part string) *tkVerdict {
 	if part != "reuse" {
 		strs = append(strs, tkQuotePool()...)
 	}
+	if part == "base" {
+		strs = append(strs, tkFormatPool()...)
+		strs = append(strs, tkUnclosedPool()...)
+	}
 	total := newTkVerdict()
 	nw := 12
 	var wg sync.WaitGroup
@@ -593,7 +810,7 @@ func (c *Ctx) tkRun(kind, part string) *tkVerdict {
 				}
 				switch r.kind {
 				case "opaque":
-					v.note("lossless", "", show+": "+r.why)
+					v.note("lossless", tkBudget(h, show, r.why, h.maxOK), show+": "+r.why)
 					continue
 				case "panic":
 					v.note("lossless", show+" panics: "+r.why, "")
@@ -685,6 +902,14 @@ func (c *Ctx) tkRun(kind, part string) *tkVerdict {
 				for i, hist := range c.tkHistories(kind) {
 					if i%nw == w {
 						c.tkRunHistory(kind, hist, v)
+					}
+				}
+			}
+			// options on instances configured so that a character is routed to a state that does not accept it
+			if part == "options" {
+				for i, cfg := range tkRejectingConfigs(c) {
+					if i%nw == w {
+						c.tkRunConfiguredOptions(kind, cfg, masks, v)
 					}
 				}
 			}
@@ -822,6 +1047,12 @@ func (c *Ctx) tkRun(kind, part string) *tkVerdict {
 			total.merge(p)
 		}
 	}
+	// one very long line: columns far beyond any narrow counter. Each member takes two to five seconds when it
+	// runs alone (much longer beside the other workers): the quick tier runs one member on the expression
+	// tokenizer, whose positions the syntax errors quote; the thorough tier three members on every tokenizer.
+	if part == "base" && (c.Tier == "thorough" || kind == "expression") {
+		c.tkRunLongLine(kind, total)
+	}
 	tkMemo[key] = total
 	return total
 }
@@ -945,8 +1176,8 @@ func init() {
 
 func tkEmit(c *Ctx, rule, check, okText string) []*Obligation {
 	o := newObl(rule)
+	part := map[string]string{"lossless": "base", "position": "base", "options": "options", "reuse": "reuse"}[check]
 	for _, kind := range tkKinds {
-		part := map[string]string{"lossless": "base", "position": "base", "options": "options", "reuse": "reuse"}[check]
 		v := c.tkRun(kind, part)
 		spec := tokenizerCtors[kind]
 		pos := c.Pos(c.MustFunc(spec[0], "", spec[1]).Pos())
